@@ -227,12 +227,10 @@ Definition lays_outb (ls : list line) (d : doc) : bool :=
 
 Definition rc_str (r : rc) : str :=
   match r with
-  | RC_ini_base => Str "ini_base" | RC_concat => Str "concat" | RC_abs_test => Str "abs_test"
-  | RC_double_base => Str "double_base" | RC_replace_all => Str "replace_all"
+  | RC_ini_base => Str "ini_base" | RC_concat => Str "concat"
   | RC_dt_custom_prefix => Str "dt_custom_prefix" | RC_dt_hardwired => Str "dt_hardwired"
   | RC_lang_marker => Str "lang_marker" | RC_typed_marker => Str "typed_marker"
-  | RC_quote_regex => Str "quote_regex" | RC_first_literal => Str "first_literal"
-  | RC_comment_quote => Str "comment_quote" | RC_dir_unresolved => Str "dir_unresolved"
+  | RC_dir_unresolved => Str "dir_unresolved"
   | RC_ws_in_literal => Str "ws_in_literal" | RC_long_number => Str "long_number"
   end.
 
@@ -242,7 +240,7 @@ Definition c07_case_row (r : list str) : list str :=
   | Some ls =>
     let d := regroup (flat_map line_stream ls) in
     let text := render_doc ls in
-    [bstr (lays_outb ls d); join (Str ",") (map rc_str (C07_rcs ls d) ++ (if C07_partial_dom ls d then [Str "PARTIAL"] else [])); text] ++
+    [bstr (lays_outb ls d); join (Str ",") (map rc_str (C07_rcs ls d)); text] ++
     (match sem d with
      | None => [Str "undef"]
      | Some ts => dec_of_N (N.of_nat (List.length ts)) :: flat_map triple_fields ts
